@@ -76,10 +76,13 @@ class Ctx:
         self.violations = []      # list of (replay_path, found_input: bool, summary)
         self.known = []           # list of strings printed as KNOWN-FINDING
         self.notes = []
-        # stale replay files of this property are removed at the start of a run
+
+    def clear_replays(self):
+        """stale replay files of this property are removed at the start of a run
+        (not when replaying one of them)"""
         try:
             for f in os.listdir(REPLAY):
-                if f.startswith(pid + "-"):
+                if f.startswith(self.pid + "-"):
                     os.remove(os.path.join(REPLAY, f))
         except OSError:
             pass
